@@ -603,3 +603,251 @@ where
         None
     }
 }
+
+// =====================================================================================================================
+// C16: user callbacks (listener, weighter, filter, destructors of values) re-enter the same single-shard cache.
+// Oracle: (a) no parking_lot slow path is reached - the stubs panic with "deadlock: ..." when a lock is requested while
+// it is held, which in a sequential harness is exactly a self-deadlock; (b) the outer and the nested operation return.
+// =====================================================================================================================
+pub struct Re {
+    cache: Cell<*const ()>,
+    busy: Cell<bool>,
+    action: u8,
+    key: u64,
+    calls: Cell<usize>,
+}
+unsafe impl Send for Re {}
+unsafe impl Sync for Re {}
+
+/// Value type whose destructor calls back into the cache it was stored in.
+pub struct DropVal<const ALG: u8> {
+    v: u64,
+    re: *const Re,
+    armed: bool,
+}
+unsafe impl<const ALG: u8> Send for DropVal<ALG> {}
+unsafe impl<const ALG: u8> Sync for DropVal<ALG> {}
+impl<const ALG: u8> Drop for DropVal<ALG> {
+    fn drop(&mut self) {
+        if self.armed && !self.re.is_null() {
+            fire::<ALG>(unsafe { &*self.re });
+        }
+    }
+}
+
+type FifoD = Fifo<u64, DropVal<0>, HProps>;
+type LruD = Lru<u64, DropVal<1>, HProps>;
+type SieveD = Sieve<u64, DropVal<2>, HProps>;
+
+fn nested<E, const ALG: u8>(re: &Re)
+where
+    E: Eviction<Key = u64, Value = DropVal<ALG>, Properties = HProps>,
+{
+    let cache: &Cache<E> = unsafe { &*(re.cache.get() as *const Cache<E>) };
+    match re.action {
+        0 => {
+            let g = cache.get(&re.key);
+            drop(g);
+        }
+        1 => {
+            let r = cache.remove(&re.key);
+            drop(r);
+        }
+        _ => {
+            let e = cache.insert(re.key, DropVal { v: 1, re: std::ptr::null(), armed: false });
+            drop(e);
+        }
+    }
+}
+
+fn fire<const ALG: u8>(re: &Re) {
+    if re.busy.get() || re.cache.get().is_null() {
+        return;
+    }
+    re.busy.set(true);
+    match ALG {
+        0 => nested::<Fifo<u64, DropVal<ALG>, HProps>, ALG>(re),
+        1 => nested::<Lru<u64, DropVal<ALG>, HProps>, ALG>(re),
+        _ => nested::<Sieve<u64, DropVal<ALG>, HProps>, ALG>(re),
+    }
+    re.calls.set(re.calls.get() + 1);
+    re.busy.set(false);
+}
+
+pub struct ReListener<const ALG: u8> {
+    re: Arc<Re>,
+}
+impl<const ALG: u8> EventListener for ReListener<ALG> {
+    type Key = u64;
+    type Value = DropVal<ALG>;
+    fn on_leave(&self, _reason: Event, _key: &u64, _value: &DropVal<ALG>) {
+        fire::<ALG>(&self.re);
+    }
+}
+
+pub const CB_LISTENER: u8 = 1;
+pub const CB_WEIGHTER: u8 = 2;
+pub const CB_FILTER: u8 = 4;
+pub const CB_DROP: u8 = 8;
+
+fn c16<E, const ALG: u8>(cfg: E::Config, cbs: u8, op: u8, action: Option<u8>)
+where
+    E: Eviction<Key = u64, Value = DropVal<ALG>, Properties = HProps>,
+{
+    let action = match action {
+        Some(a) => a,
+        None => {
+            let a: u8 = kani::any();
+            kani::assume(a < 3);
+            a
+        }
+    };
+    let re = Arc::new(Re { cache: Cell::new(std::ptr::null()), busy: Cell::new(false), action, key: KEYS[any_key_idx()], calls: Cell::new(0) });
+    let (rw, rf) = (re.clone(), re.clone());
+    let (cw, cf) = (cbs & CB_WEIGHTER != 0, cbs & CB_FILTER != 0);
+    let cache: Cache<E> = RawCache::new(RawCacheConfig {
+        capacity: 2,
+        shards: 1,
+        eviction_config: cfg,
+        hash_builder: IdHasher,
+        weighter: Arc::new(move |_k: &u64, v: &DropVal<ALG>| {
+            if cw {
+                fire::<ALG>(&rw);
+            }
+            (v.v & 3) as usize
+        }),
+        filter: Arc::new(move |_k: &u64, v: &DropVal<ALG>| {
+            if cf {
+                fire::<ALG>(&rf);
+            }
+            v.v & 4 == 0
+        }),
+        event_listener: if cbs & CB_LISTENER != 0 {
+            Some(Arc::new(ReListener::<ALG> { re: re.clone() }) as Arc<dyn EventListener<Key = u64, Value = DropVal<ALG>>>)
+        } else {
+            None
+        },
+        metrics: Arc::new(Metrics::noop()),
+    });
+    let armed = cbs & CB_DROP != 0;
+    let rp: *const Re = Arc::as_ptr(&re);
+    // pre-state: full cache (two entries of weight 1); callbacks are not armed yet (cache pointer is null)
+    drop(cache.insert(KEYS[0], DropVal { v: 1, re: rp, armed }));
+    drop(cache.insert(KEYS[1], DropVal { v: 1, re: rp, armed }));
+    re.cache.set(&cache as *const Cache<E> as *const ());
+
+    let k = KEYS[any_key_idx()];
+    match op {
+        OP_INSERT => {
+            let v: u64 = kani::any();
+            kani::assume(v < 8);
+            let e = cache.insert(k, DropVal { v, re: rp, armed });
+            drop(e);
+        }
+        OP_INSERT_DISK => {
+            let e = cache.insert_with_properties(k, DropVal { v: 1, re: rp, armed }, HProps::default().with_location(Location::OnDisk));
+            drop(e);
+        }
+        OP_REMOVE => {
+            let r = cache.remove(&k);
+            drop(r);
+        }
+        OP_GET => {
+            let g = cache.get(&k);
+            drop(g);
+        }
+        OP_CLEAR => cache.clear(),
+        _ => cache.evict_all(),
+    }
+    kani::cover!(re.calls.get() > 0, "a callback re-entered the cache");
+    kani::cover!(true, "end reached");
+    re.cache.set(std::ptr::null());
+    std::mem::forget(cache);
+    std::mem::forget(re);
+}
+
+macro_rules! c16h {
+    ($name:ident, $e:ty, $alg:expr, $cfg:expr, $cbs:expr, $op:expr, $action:expr) => {
+        verif_harness! { #[kani::stub(crate::inflight::InflightManager::take, crate::inflight::InflightManager::verif_take_none)] $name, 5, {
+            c16::<$e, $alg>($cfg, $cbs, $op, $action);
+        } }
+    };
+}
+// listener re-enters with a write-locking operation (remove) - the strictest probe - on every notifying path
+c16h!(c16_fifo_listener_insert, FifoD, 0, FifoConfig::default(), CB_LISTENER, OP_INSERT, Some(1));
+c16h!(c16_fifo_listener_remove, FifoD, 0, FifoConfig::default(), CB_LISTENER, OP_REMOVE, Some(1));
+c16h!(c16_fifo_listener_clear, FifoD, 0, FifoConfig::default(), CB_LISTENER, OP_CLEAR, Some(1));
+c16h!(c16_fifo_listener_evictall, FifoD, 0, FifoConfig::default(), CB_LISTENER, OP_EVICT_ALL, Some(1));
+c16h!(c16_fifo_listener_insdisk, FifoD, 0, FifoConfig::default(), CB_LISTENER, OP_INSERT_DISK, Some(1));
+// weighter + filter re-enter during insert
+c16h!(c16_fifo_wf_insert, FifoD, 0, FifoConfig::default(), CB_WEIGHTER | CB_FILTER, OP_INSERT, Some(1));
+// value destructor re-enters (records must be released outside the critical section)
+c16h!(c16_fifo_drop_insert, FifoD, 0, FifoConfig::default(), CB_DROP, OP_INSERT, Some(1));
+c16h!(c16_fifo_drop_remove, FifoD, 0, FifoConfig::default(), CB_DROP, OP_REMOVE, Some(1));
+c16h!(c16_fifo_drop_clear, FifoD, 0, FifoConfig::default(), CB_DROP, OP_CLEAR, Some(1));
+c16h!(c16_fifo_drop_evictall, FifoD, 0, FifoConfig::default(), CB_DROP, OP_EVICT_ALL, Some(1));
+// symbolic nested action (get / remove / insert)
+c16h!(c16_fifo_listener_insert_anyaction, FifoD, 0, FifoConfig::default(), CB_LISTENER, OP_INSERT, None);
+// LRU: lookups and handle drops take the write lock
+c16h!(c16_lru_listener_insert, LruD, 1, LRU_CFG, CB_LISTENER, OP_INSERT, Some(1));
+c16h!(c16_lru_drop_insert, LruD, 1, LRU_CFG, CB_DROP, OP_INSERT, Some(1));
+c16h!(c16_lru_drop_get, LruD, 1, LRU_CFG, CB_DROP | CB_LISTENER, OP_GET, Some(0));
+c16h!(c16_lru_listener_clear, LruD, 1, LRU_CFG, CB_LISTENER, OP_CLEAR, Some(0));
+c16h!(c16_sieve_listener_insert, SieveD, 2, SieveConfig {}, CB_LISTENER, OP_INSERT, Some(1));
+c16h!(c16_sieve_drop_insert, SieveD, 2, SieveConfig {}, CB_DROP, OP_INSERT, Some(1));
+
+// ---- cost experiments (temporary) ----
+verif_harness! { #[kani::stub(crate::inflight::InflightManager::take, crate::inflight::InflightManager::verif_take_none)] exp_e1_new, 5, {
+    let cache: Cache<FifoT> = mk_cache(2, FifoConfig::default(), None, None);
+    kani::cover!(true, "end reached");
+    std::mem::forget(cache);
+} }
+verif_harness! { #[kani::stub(crate::inflight::InflightManager::take, crate::inflight::InflightManager::verif_take_none)] exp_e2_ins1, 5, {
+    let cache: Cache<FifoT> = mk_cache(2, FifoConfig::default(), None, None);
+    let e = cache.insert(16, 1);
+    std::mem::forget(e);
+    kani::cover!(true, "end reached");
+    std::mem::forget(cache);
+} }
+verif_harness! { #[kani::stub(crate::inflight::InflightManager::take, crate::inflight::InflightManager::verif_take_none)] exp_e3_ins2_rm, 5, {
+    let cache: Cache<FifoT> = mk_cache(2, FifoConfig::default(), None, None);
+    let e = cache.insert(16, 1);
+    drop(e);
+    let e = cache.insert(17, 1);
+    drop(e);
+    let r = cache.remove(&16);
+    assert!(r.is_some());
+    assert!(cache.usage() == 1);
+    std::mem::forget(r);
+    kani::cover!(true, "end reached");
+    std::mem::forget(cache);
+} }
+verif_harness! { #[kani::stub(crate::inflight::InflightManager::take, crate::inflight::InflightManager::verif_take_none)] exp_e4_ins2_rmsym, 5, {
+    let cache: Cache<FifoT> = mk_cache(2, FifoConfig::default(), None, None);
+    let e = cache.insert(16, 1);
+    drop(e);
+    let e = cache.insert(17, 1);
+    drop(e);
+    let k = KEYS[any_key_idx()];
+    let r = cache.remove(&k);
+    assert!(r.is_some() == (k != 32));
+    std::mem::forget(r);
+    kani::cover!(true, "end reached");
+    std::mem::forget(cache);
+} }
+verif_harness! { #[kani::stub(crate::inflight::InflightManager::take, crate::inflight::InflightManager::verif_take_none)] exp_e5_ins3sym, 5, {
+    let cache: Cache<FifoT> = mk_cache(2, FifoConfig::default(), None, None);
+    let e = cache.insert(16, 1);
+    drop(e);
+    let e = cache.insert(17, 1);
+    drop(e);
+    let k = KEYS[any_key_idx()];
+    let v: u64 = kani::any();
+    kani::assume(v < 4);
+    let e = cache.insert(k, v);
+    assert!(cache.usage() <= 2 || v == 3);
+    std::mem::forget(e);
+    kani::cover!(true, "end reached");
+    std::mem::forget(cache);
+} }
+step_harness!(exp_x1_remove_noobs, FifoT, FifoConfig::default(), sc(Some(2), FULL2, 2, false, false, false, OP_REMOVE));
